@@ -15,7 +15,8 @@ PathDocs ==
    Arr(<<sa, sab, sb>>), Arr(<<o1, o2, o3>>), Arr(<<o1, u1, o4, Arr(<<u2, o2>>)>>), o1, o2, o4,
    Obj(<< <<ka, Arr(<<o1, o2>>)>>, <<kb, u2>> >>), Obj(<< <<ka, Obj(<< <<ka, Obj(<< <<ka, u1>> >>)>> >>)>> >>),
    Arr(<<Arr(<<u1, u2>>), Arr(<<>>), Arr(<<u256>>)>>), Obj(<< <<kEmpty, u1>>, <<kE, Arr(<<i1, f1, u1>>)>> >>),
-   Arr(<<u2p53, u2p53p1, f2p53>>), Arr(<<im1, u0, fm0, f15>>)}
+   Arr(<<u2p53, u2p53p1, f2p53>>), Arr(<<im1, u0, fm0, f15>>),
+   Arr(<<Arr(<<>>), Arr(<<u1, u2>>)>>), Arr(<<Obj(<<>>), o1, Arr(<<>>)>>), Obj(<< <<ka, Arr(<<>>)>>, <<kb, Arr(<<o2>>)>> >>)}
 
 \* ---- syntax tree constructors
 Root == [p |-> "root"]     Cur == [p |-> "cur"]      DotW == [p |-> "dotw"]    BrW == [p |-> "brw"]
